@@ -119,12 +119,17 @@ pub const REPL: [f64; 12] = [0.0, 0.0, 0.0, 1.0, 2.0, 12.0, 0.5, 1000.0, 1e9, 31
 /// per sentence shape, unit pair, currency pair, zone or name is primed with different numbers before the probe
 pub fn related_history_strategy(max: usize) -> impl Strategy<Value = CalcHistory> {
     let cfg = prop_oneof![4 => Just(Cfg::default()), 1 => Just(Cfg::seps(".", ","))];
-    let variant = prop::collection::vec((any::<bool>(), 0usize..REPL.len()), 12);
+    // (other language?, operand replacements)
+    let variant = (prop::bool::weighted(0.3), prop::collection::vec((any::<bool>(), 0usize..REPL.len()), 12));
     (cfg, any_line().prop_filter("time of day", |g| !time_dependent(&g.text(",", "."))), prop::collection::vec(variant, 1..max), prop::collection::vec(text_strategy(), 0..3)).prop_map(|(cfg, g, variants, others)| {
         let (dec, thou) = (cfg.dec().to_string(), cfg.thou().to_string());
         let mut history = vec![];
-        for (k, picks) in variants.iter().enumerate() {
+        for (k, (other_lang, picks)) in variants.iter().enumerate() {
             let mut v = g.clone();
+            if *other_lang {
+                // the same words evaluated under the other language first (whatever they mean there)
+                v.lang = if g.lang == "tr" { "en".to_string() } else { "tr".to_string() };
+            }
             let mut n = 0;
             for l in v.prelude.iter_mut().chain(std::iter::once(&mut v.line)) {
                 for t in l.toks.iter_mut() {
